@@ -1,9 +1,63 @@
-from ..ctx import Undecided
+"""segment_sum and logsumexp (C20).  Sums over symbolic extents are uninterpreted; every use is recorded
+(ghost state) so that contracts can instantiate the finite-sum lemma schemas of DESIGN 4.3 on them."""
+
+from __future__ import annotations
+
+import z3
+
+from ..ctx import Undecided, cur
+from ..values import SymArray, T, asarray, same_dim, sort_of, zdim
+from .jnp_impl import _axes, _fn
 
 
-def segment_sum(*a, **k):
-    raise Undecided("segment_sum")
+class SegSum:
+    def __init__(self, S, data, ids, num):
+        self.S, self.data, self.ids, self.num = S, data, ids, num
 
 
-def logsumexp(*a, **k):
-    raise Undecided("logsumexp")
+def segment_sum(data, segment_ids, num_segments=None, indices_are_sorted=False, **kw):
+    ctx = cur()
+    if kw:
+        raise Undecided(f"segment_sum options {sorted(kw)}")
+    data, ids = asarray(data), asarray(segment_ids)
+    if num_segments is None or ids.ndim != 1 or data.ndim < 1:
+        raise Undecided("segment_sum: unsupported call shape")
+    if same_dim(data.zshape[0], ids.zshape[0]) is not True:
+        ctx.prove_then_assume("segment_sum-lengths", data.zshape[0] == ids.zshape[0], "safety")
+    num = zdim(num_segments)
+    nm = ctx.fresh("segsum")
+    S = _fn(nm, data.ndim, sort_of("float" if data._dtype != "int" else "int"))
+    out = SymArray((num, *data.zshape[1:]), lambda idx: S(*idx), "float" if data._dtype != "int" else "int")
+    if getattr(data, "positive", False):
+        # a sum of positive terms over a non-empty segment is positive (Finset.sum_pos)
+        from .jnp_impl import _forall
+        from ..values import inrange
+
+        j = z3.Int(nm + ".j")
+        Tt = [z3.Int(f"{nm}.t{q}") for q in range(data.ndim - 1)]
+        idj = ids.get((j,))
+        ctx.assume(_forall([j] + Tt, z3.Implies(z3.And(j >= 0, j < data.zshape[0], inrange(data.zshape[1:], Tt), idj >= 0, idj < num), S(idj, *Tt) > 0), dims=list(data.zshape)), tag="math:Finset.sum_pos")
+        ctx.trusted.add("finite-sum lemma (assumed): a sum of positive terms over a non-empty segment is positive")
+    rec = SegSum(S, data, ids, num)
+    out.segsum = rec
+    ctx.memo.setdefault("segsums", []).append(rec)
+    ctx.trusted.add("jax.ops.segment_sum (uninterpreted finite sum per segment; lemma schemas instantiated by contracts)")
+    return out
+
+
+def logsumexp(a, axis=None, **kw):
+    """jax.scipy.special.logsumexp: uninterpreted reduction LSE over the given axes; the call is recorded"""
+    ctx = cur()
+    if kw:
+        raise Undecided(f"logsumexp options {sorted(kw)}")
+    a = asarray(a)
+    red = _axes(a, axis)
+    batch = tuple(x for x in range(a.ndim) if x not in red)
+    nm = ctx.fresh("lse")
+    Lf = _fn(nm, len(batch), z3.RealSort())
+    out = SymArray(tuple(a.zshape[x] for x in batch), lambda idx: Lf(*idx), "float")
+    ctx.memo.setdefault("lse-calls", []).append({"input": a, "axes": red, "out": out})
+    ctx.trusted.add("jax.scipy.special.logsumexp (uninterpreted; C20 checks how it is called)")
+    from ..values import unwrap0
+
+    return unwrap0(out)
